@@ -198,6 +198,27 @@ func VerifC17NtimedReset() {
 	v.Reach("C17.ntimedreset")
 }
 
+// an explicit reset clears every piece of learned state
+func VerifC17NtimedResetState() {
+	c17clk()
+	c17epoch = v.Uint64("epoch")
+	f := c17ntimedState("f")
+	f.Reset()
+	g := NewNtimedFilter(nil)
+	v.Assert(f.alo == g.alo && f.amid == g.amid && f.ahi == g.ahi && f.alolo == g.alolo && f.ahihi == g.ahihi && f.navg == g.navg, "C17.ntimed.reset-clears-all-learned-state")
+	v.Assert(f.epoch == c17epoch, "C17.ntimed.reset-records-epoch")
+	// a new clock epoch does the same before the sample is absorbed: two filters that differ only in
+	// their stale state end up in the same state
+	h1, h2 := c17ntimedState("h1"), c17ntimedState("h2")
+	v.Assume(h1.epoch != c17epoch && h2.epoch != c17epoch)
+	s := c17newSample()
+	a := h1.Do(s.t0, s.t1, s.t2, s.t3)
+	b := h2.Do(s.t0, s.t1, s.t2, s.t3)
+	v.Assert(a == b, "C17.ntimed.epoch-change-output-independent-of-stale-state")
+	v.Assert(h1.alo == h2.alo && h1.amid == h2.amid && h1.ahi == h2.ahi && h1.alolo == h2.alolo && h1.ahihi == h2.ahihi && h1.navg == h2.navg && h1.epoch == h2.epoch, "C17.ntimed.epoch-change-state-independent-of-stale-state")
+	v.Reach("C17.ntimedresetstate")
+}
+
 // while fewer than four samples have been seen since the last reset the output is the raw offset of
 // the sample: -(lo+hi)/2 converted to a duration, whatever the rest of the state holds
 func VerifC17NtimedRaw() {
